@@ -277,7 +277,27 @@ func c12Rewrites(ctx *core.Ctx, idx int) core.Result {
 		}
 		return []ast.Node{ast.Assign{Name: "vf", Value: ast.FuncLit{Body: ast.Block{Stmts: stmts}}}, ast.Call{Fn: "vf"}}
 	}
-	switch idx % 4 {
+	switch idx % 5 {
+	case 4: // the README's shadowing increment: the first mention of x in a function is x = x + 1, x being a global or a captured variable
+		kind = "increment-shadowing"
+		init := []ast.Node{ast.IntLit{V: int64(r.Intn(100))}, ast.FloatLit{V: 2.5}, ast.StrLit{V: "s"}}[r.Intn(3)]
+		mk := func(body ...ast.Node) []ast.Node {
+			body = append(body, x)
+			if inFn { // x captured from an enclosing function
+				return []ast.Node{ast.Assign{Name: "vo", Value: ast.FuncLit{Body: ast.Block{Stmts: []ast.Node{ast.Assign{Name: "vx", Value: init},
+					ast.Assign{Name: "vi", Value: ast.FuncLit{Body: ast.Block{Stmts: body}}}, ast.ArrayLit{Elems: []ast.Node{ast.Call{Fn: "vi"}, x}}}}}}, ast.Call{Fn: "vo"}}
+			}
+			return []ast.Node{ast.Assign{Name: "vx", Value: init}, ast.Assign{Name: "vi", Value: ast.FuncLit{Body: ast.Block{Stmts: body}}}, ast.ArrayLit{Elems: []ast.Node{ast.Call{Fn: "vi"}, x}}}
+		}
+		variants = [][]ast.Node{
+			mk(ast.Assign{Name: "vx", Value: ast.Binary{Op: "+", L: x, R: ast.IntLit{V: 1}}}),
+			mk(ast.Assign{Name: "vx", Value: ast.Binary{Op: "+", L: ast.IntLit{V: 1}, R: x}}),
+			mk(ast.Assign{Name: "vt", Value: x}, ast.Assign{Name: "vx", Value: ast.Binary{Op: "+", L: nm("vt"), R: ast.IntLit{V: 1}}}),
+			mk(ast.Assign{Name: "vx", Value: ast.Binary{Op: "-", L: ast.Binary{Op: "+", L: x, R: ast.IntLit{V: 2}}, R: ast.IntLit{V: 1}}}),
+		}
+		if _, isStr := init.(ast.StrLit); isStr {
+			variants = variants[:3]
+		}
 	case 0: // x = x + 1 / x = 1 + x / t = x ; x = t + 1
 		kind = "increment"
 		init := []ast.Node{ast.IntLit{V: int64(r.Intn(100))}, ast.FloatLit{V: 2.5}, ast.StrLit{V: "s"}, ast.IntLit{V: 9223372036854775807}, ast.ArrayLit{}, ast.BoolLit{V: true}}[r.Intn(6)]
@@ -478,7 +498,7 @@ func init() {
 			{Name: "rewrite", Count: countFn(4000, 200000), Run: c12Rewrites},
 			{Name: "cond", Count: func(string) int { return 13 * 5 * 8 * 3 }, Run: c12Cond},
 		},
-		Floors: []core.Floor{{Key: "placements_run", Quick: 60000, Thor: 8000000}, {Key: "tag:placement:", Quick: 25, Thor: 25}, {Key: "tag:rewrite:", Quick: 4, Thor: 4}, {Key: "tag:cond:", Quick: 20, Thor: 20}, {Key: "nontrivial", Quick: 3000, Thor: 300000}},
+		Floors: []core.Floor{{Key: "placements_run", Quick: 60000, Thor: 8000000}, {Key: "tag:placement:", Quick: 25, Thor: 25}, {Key: "tag:rewrite:", Quick: 5, Thor: 5}, {Key: "tag:cond:", Quick: 20, Thor: 20}, {Key: "nontrivial", Quick: 3000, Thor: 300000}},
 	})
 	core.CaseSeconds["C12/expr"] = 0.5
 }
